@@ -215,7 +215,7 @@ func runC16(c *Ctx) {
 			c.Paired("C16-R5", fn, "slot clear → size--", func(in ssa.Instruction) bool { return isSlotKeyClear(in, pairKey) }, func(in ssa.Instruction) bool { return isFieldStore(in, sizeF, nil) })
 		}
 	}
-	c.Floor("C16-R5", 6)
+	c.Floor("C16-R5", 2) // ≥ one function that clears a slot (two obligations per function); the three sites may legitimately share a helper
 
 	// R6 identity CAS
 	c.Doc("C16-R6", "CompareAndSwap/CompareAndDelete mutate only behind ok=true and cur == old (identity), under the segment write lock (R1)")
